@@ -12,7 +12,7 @@ import os
 import tempfile
 
 import gen_struct as G
-from core import Ctx
+from core import REPO, Ctx, hexs
 from props import c01
 
 import gen.mainflow as genmainflow
@@ -335,6 +335,54 @@ def gate_tie(ctx: Ctx, n):
         ctx.distinct.add(("gate", band, l))
         if a != real:
             ctx.disagree("main.is_repairable (decision on the two counts)", {"num_heavy": h, "num_missing_heavy": m, "has_ligand": l}, a, real)
+
+
+def option_gate_tie(ctx: Ctx):
+    """main.check_files + main.check_options (called as main_driver calls them, on an argparse.Namespace) against the
+    model's `gate` (theorem gate_accepts_iff_usable) on the WHOLE grid of requests: each file option absent / existing /
+    missing, --ff {None, AMBER, PARSE, parse, Parse, CHARMM, an unknown name}, pH {-inf, <0, 0, 7, 14, >14, inf, nan},
+    --neutraln, --neutralc"""
+    import argparse
+    import itertools
+    import tempfile
+
+    from pdb2pqr import main as pmain
+
+    d = tempfile.mkdtemp(prefix="p2p_gate_")
+    try:
+        paths = {}
+        for k in ("usernames", "userff", "ligand"):
+            fn = os.path.join(d, k + ".txt")
+            open(fn, "w").write("x\n")
+            paths[k] = {"-": None, "1": fn, "0": os.path.join(d, k + ".absent")}
+        ffs = [None, "AMBER", "PARSE", "parse", "Parse", "CHARMM", "NOSUCHFF"]
+        phs = [("-inf", float("-inf")), ("-1", -0.001), ("0", 0.0), ("7000", 7.0), ("14000", 14.0), ("14001", 14.001), ("inf", float("inf")), ("nan", float("nan"))]
+        grid = list(itertools.product("-10", "-10", ffs, "-10", phs, (False, True), (False, True)))
+        reqs = []
+        for un, uf, ff, lig, (pht, _phv), nn, nc in grid:
+            dat = ff is not None and (REPO / "pdb2pqr" / "dat" / (ff.upper() + ".DAT")).exists()
+            reqs.append(f"option.gate\t{un}\t{uf}\t{hexs(ff) if ff is not None else '-'}\t{int(dat)}\t{lig}\t{pht}\t{int(nn)}\t{int(nc)}")
+        ans = ctx.driver.ask(reqs)
+        marks = [("names file does not exist", "usernamesMissing"), ("forcefield file does not exist", "userffMissing"), ("--usernames must be specified", "userffWithoutUsernames"),
+                 ("Unable to find ligand", "ligandMissing"), ("outside the range", "phRange"), ("--neutraln option", "neutralnNotParse"), ("--neutralc option", "neutralcNotParse")]
+        for (un, uf, ff, lig, (pht, phv), nn, nc), a in zip(grid, ans):
+            ns = argparse.Namespace(usernames=paths["usernames"][un], userff=paths["userff"][uf], ff=ff, ligand=paths["ligand"][lig], ph=phv, neutraln=nn, neutralc=nc)
+            try:
+                pmain.check_files(ns)
+                pmain.check_options(ns)
+                real = "pass"
+            except Exception as e:  # noqa: BLE001
+                msg = str(e)
+                real = next((k for m, k in marks if m in msg), None) or ("ffDatMissing" if isinstance(e, FileNotFoundError) else f"other:{type(e).__name__}:{msg[:40]}")
+            ctx.evaluations += 1
+            ctx.count("option-gate", real)
+            ctx.distinct.add(("option-gate", un, uf, ff, lig, pht, nn, nc))
+            if a != real:
+                ctx.disagree("main.check_files + main.check_options (first refusal)", {"usernames": un, "userff": uf, "ff": ff, "ligand": lig, "ph": pht, "neutraln": nn, "neutralc": nc}, a, real)
+    finally:
+        for fn in os.listdir(d):
+            os.unlink(os.path.join(d, fn))
+        os.rmdir(d)
 
 
 def repair_limit_stream(ctx: Ctx, n):
@@ -791,6 +839,7 @@ def run(ctx: Ctx):
     natural_failures(ctx)
     guard_tie(ctx, ctx.scale(400, 20000))
     gate_tie(ctx, ctx.scale(300, 10000))
+    option_gate_tie(ctx)
     repair_limit_stream(ctx, ctx.scale(10, 200))
     non_integral_totals(ctx, ctx.scale(12, 400))
     success_side(ctx, ctx.scale(20, 600))
